@@ -538,7 +538,9 @@ def run(ctx):
     for kind, want_op in (('Union', 'union'), ('Except', 'except'), ('Intersect', 'intersect')):
         for unique in (True, False):
             added = []
-            left, right = select_ctor(None, targets=[Obj('Star')]), select_ctor(None, targets=[Obj('Star')])
+            left = select_ctor(None, targets=[Obj('Star')], from_table=Obj('Identifier', parts=['int1', 'a'], alias=None), limit=const(3), order_by=[Obj('OrderBy', field=ident('x'))])
+            right = select_ctor(None, targets=[Obj('Star')], from_table=Obj('Identifier', parts=['int2', 'b'], alias=None))
+            left0, right0 = left.clone(), right.clone()
             planned = []
 
             def plan_select(it, q, integration=None):
@@ -553,6 +555,11 @@ def run(ctx):
             rows += 1
             ok = len(added) == 1 and res is added[0] and added[0].attrs.get('operation') == want_op and added[0].attrs.get('unique') is unique \
                 and added[0].attrs.get('left') == 'R1' and added[0].attrs.get('right') == 'R2' and planned[0] is left and planned[1] is right
+            ctx.ob('C08.set-operation', f'{kind}:unique={unique}:operands-unchanged', left == left0 and right == right0,
+                   f'plan_union changes its operands before planning them ({kind}{"" if unique else " ALL"}): '
+                   f'{[k for k in left0.attrs if left.attrs.get(k) != left0.attrs.get(k)] + [k for k in right0.attrs if right.attrs.get(k) != right0.attrs.get(k)]} - a clause '
+                   f'added to a branch (e.g. DISTINCT) is evaluated before that branch\'s own ORDER BY / LIMIT and changes its rows', file=QP, line=pu.lineno,
+                   witness='(select x from int1.a order by x limit 3) union select x from int2.b')
             ctx.ob('C08.set-operation', f'{kind}:unique={unique}', ok,
                    f'{kind}{"" if unique else " ALL"} must become one UnionStep(operation={want_op!r}, unique={unique}) over the results of its left and right operand in '
                    f'that order; got {[(a.kind, a.attrs.get("operation"), a.attrs.get("unique"), a.attrs.get("left"), a.attrs.get("right")) for a in added]}',
